@@ -15,7 +15,8 @@ OBLIGATIONS = [
 PARTIAL = ["numpy argmax tie-breaking is free by design: the check is by value of the exact posterior at the returned assignment",
            "row-wise predict is compared differentially (pandas merge logic is not modelled)"]
 RULE = ("same generators as C01 (incl. planted equal reduced factors); MAP by VE for all order options, by BP on connected networks, "
-        "row-wise predict, Markov networks; non-trivial = >1 joint state of the query variables; distinct = case JSON")
+        "row-wise predict, Markov networks; non-trivial = >1 joint state of the query variables; distinct = case JSON"
+        " Also: calibrate / max_calibrate before BP map queries.")
 ASSUMPTIONS = ["ties: any maximiser is accepted; the returned assignment's exact posterior must be within 1e-9 (relative) of the maximum"]
 BUDGET_QUICK = 75
 LEVEL_TEXT = ("Kernel-checked: argmaxIdx returns the index of a maximal table entry and `assignment` decodes a flat index into an in-range "
